@@ -164,7 +164,7 @@ Theorem C01_progress :
   (forall m b got e b',
      binv gen_hello_buf_size b -> 0 < m -> remaining b <> [] ->
      bread gen_hello_buf_size m b = (got, e, b') ->
-     (List.length (remaining b') < List.length (remaining b))%nat /\ e = None).
+     (List.length (remaining b') < List.length (remaining b))%nat /\ got <> []).
 Proof.
   exact (conj side_read_progress (conj pipe_read_progress
           (fun m b got e b' Hinv =>
@@ -257,7 +257,7 @@ Definition ex_stream : bytes :=
 (** The same stream through both mechanisms with hostile schedules: 1-byte
     TCP segments at first, small application buffers. *)
 Example C01_nonvacuous_to_app :
-  let sc := mkSched ([1; 1; 1; 2; 3] ++ rep 1460 20) (rep 32768 8) [(100, false); (1, true)]
+  let sc := mkSched ([1; 1; 1; 2; 3] ++ rep 1460 20) true (rep 32768 8) [(100, false); (1, true)]
                     (rep 7 3 ++ rep 4096 20) [] in
   match to_app TLegacy gen_hello_buf_size gen_side_chunk sc ex_stream,
         to_app TSide gen_hello_buf_size gen_side_chunk sc ex_stream with
